@@ -121,3 +121,28 @@ Proof.
     + apply andb_true_iff in H as [_ H]. destruct (Hrec _ H) as [A|(j & ok' & Hj & Hn)]; [left; exact A|right; exists (S j), ok'; split; [lia|exact Hn]].
     + apply andb_true_iff in H as [_ H]. destruct (Hrec _ H) as [A|(j & ok' & Hj & Hn)]; [left; exact A|right; exists (S j), ok'; split; [lia|exact Hn]].
 Qed.
+
+(** R1 for scans: in a scan accepted by [scan_ok] that contains no failed
+    validation, every field load from a node is followed by a successful
+    check / read-unlock / upgrade of that very node *)
+Lemma scan_loads_covered_spec : forall l, scan_loads_covered l = true ->
+  forall a n b, l = a ++ PLoad n :: b ->
+    existsb (fun x => validates n x || is_failure x) b = true.
+Proof.
+  induction l as [|e l IH]; intros H a n b E.
+  - destruct a; discriminate.
+  - cbn [scan_loads_covered] in H. apply andb_true_iff in H as [H1 H2].
+    destruct a as [|x a]; cbn [app] in E; injection E as -> ->; [exact H1|].
+    eapply IH; [exact H2|reflexivity].
+Qed.
+
+Theorem scan_loads_validated : forall l, scan_ok l = true -> forallb (fun x => negb (is_failure x)) l = true ->
+  forall a n b, l = a ++ PLoad n :: b -> existsb (validates n) b = true.
+Proof.
+  intros l H NF a n b E. unfold scan_ok in H. apply andb_true_iff in H as [_ H].
+  pose proof (scan_loads_covered_spec l H a n b E) as C.
+  apply existsb_exists in C as (x & Hx & Hv). apply existsb_exists. exists x. split; [exact Hx|].
+  apply orb_true_iff in Hv as [Hv|Hf]; [exact Hv|exfalso].
+  rewrite forallb_forall in NF. assert (In x l) by (subst l; apply in_or_app; right; right; exact Hx).
+  specialize (NF x H0). rewrite Hf in NF. discriminate.
+Qed.
